@@ -45,6 +45,12 @@ def cases(tier, seed):
         recs.append((['er', n, float(rs.choice([.1, .2, .3, .5])), d, int(rs.randint(1 << 30))], d))
     for i, (g, d) in enumerate(recs):
         out.append({'kind': 'sp', 'g': g, 'directed': d, 'ws': seed * 100 + i, 'schemes': ['bin', 'int', 'dyad', 'real']})
+    # equal-length alternatives are where hops and Pmat can drift apart: many dense graphs with tied lengths
+    for t in range(4000 if thorough else 800):
+        n = int(rs.randint(5, 13))
+        d = bool(t % 2)
+        out.append({'kind': 'sp', 'g': ['er', n, float(rs.choice([.3, .5, .7, .9])), d, int(rs.randint(1 << 30))], 'directed': d,
+                    'ws': seed * 1000 + t, 'schemes': ['int', 'dyad', 'decimal'] if t % 2 else ['decimal']})
     # navigation
     for t in range(200 if thorough else 60):
         n = int(rs.randint(4, nmax + 1))
@@ -63,6 +69,8 @@ def run_sp(case, bct, REC):
     for sc in case['schemes']:
         L = G.weigh(A, sc, case['ws'], symmetric=not directed)
         trs = [None] if sc in ('bin', 'int') else [None, 'inv', 'log']
+        if sc == 'decimal':
+            trs = [None, 'inv']
         for tr in trs:
             REC.tag(PROP, 'exec')
             with np.errstate(all='ignore'):
